@@ -102,6 +102,7 @@ void Monitor::on_read(bool ok, unsigned char byte)
                 return;
         }
         stimulus_since_ok = true;
+        svc_ok_now = false;
         if (!cmdq.empty()) {
                 bool h = hold_phase != 0;
                 for (auto &it : cmdq)
@@ -500,7 +501,9 @@ void Monitor::on_write(unsigned char byte, bool accepted)
                         tag = "C14";
                         rule = "wrong-result-code-after-release";
                 } else if (mid && nlish) {
-                        tag = "C11";
+                        // (when the other producer owes the result code of a released hold, the intruding bytes are that code's)
+                        const std::deque<Item> &oq = prev[0].prod == 0 ? evq : cmdq;
+                        tag = (!oq.empty() && oq.front().kind == Item::HOLDWAIT) ? "C11,C14" : "C11";
                         rule = "unit-broken-by-newline";
                 } else if (it.is_result) {
                         rule = "wrong-result-code";
@@ -583,7 +586,7 @@ void Monitor::classify_stray()
                 fail("C01", "result-code-without-pending-line", "\"" + vis(cur_unit) + "\" emitted although no complete, unanswered command line is pending" +
                                                                       (partial_line() ? " (partial line so far: \"" + vis(cur_line) + "\")" : ""));
         else if (accepted > 0)
-                fail("C13,C17", "unit-with-no-pending-event", "\"" + vis(cur_unit) + "\" emitted although every accepted event has been delivered and no line is pending");
+                fail("C13,C17,C11", "unit-with-no-pending-event", "\"" + vis(cur_unit) + "\" emitted although every accepted event has been delivered and no line is pending");
         else
                 fail("C11", "output-with-nothing-pending", "\"" + vis(cur_unit) + "\" emitted although nothing is pending");
 }
@@ -617,6 +620,7 @@ void Monitor::on_service_end(int status)
         deferred_compares();
         if (dead())
                 return;
+        svc_ok_now = status == ST_OK;
         if (status == ST_OK) {
                 if (!cmdq.empty() || !evq.empty() || !cands.empty()) {
                         // verdict deferred to the end of the run: if the pending work is never done it is also a lost
@@ -654,6 +658,7 @@ void Monitor::on_trigger(int cmd, int type, int status, int full_before)
         if (status == ST_MUTEX_LOCK)
                 return;
         stimulus_since_ok = true;
+        svc_ok_now = false;
         bool acc;
         if (status == ST_OK)
                 acc = true;
@@ -742,6 +747,7 @@ void Monitor::on_hexit(int status_arg, int result)
         if (dead())
                 return;
         stimulus_since_ok = true;
+        svc_ok_now = false;
         if (result == ST_MUTEX_UNLOCK) {
                 // the body ran, only its status was replaced by the unlock error
                 if (hold_phase != 0)
@@ -794,6 +800,10 @@ void Monitor::on_busy(int r)
                         fail_soft("C18", "busy-ok-while-work-in-flight", "cat_is_busy returned OK but " + why);
         } else if (last_svc_ok && !stimulus_since_ok && !partial_line() && cmdq.empty() && evq.empty() && cands.empty()) {
                 fail_soft("C18", "busy-while-quiescent", "cat_is_busy returned BUSY although cat_service reported OK, no line is partially received and nothing happened since");
+        } else if (svc_ok_now && !partial_line() && hold_phase == 0) {
+                // the two public functions disagree about quiescence, whatever the model still expects
+                fail_soft("C18,C15", "busy-although-service-reports-ok", "cat_is_busy returned BUSY right after cat_service returned OK with no line partially received and nothing happening in between (command side expects " +
+                                                                             head_desc(cmdq) + ", event side expects " + head_desc(evq) + ")");
         }
 }
 
@@ -911,6 +921,7 @@ void Monitor::on_fresh()
         in_list = false;
         last_svc_ok = false;
         stimulus_since_ok = true;
+        svc_ok_now = false;
         ev_quiet = true;
 }
 
@@ -923,7 +934,7 @@ void Monitor::flush_deferred()
         if (!evq.empty())
                 fail("C15,C13,C11", "event-left-behind-after-ok", d + "; the event was never delivered afterwards");
         else if (!cmdq.empty() && hold_phase != 1)
-                fail("C15,C01", "line-unanswered-after-ok", d + "; the line was never answered afterwards");
+                fail(std::string("C15,C01,") + cmdq.front().tag, "line-unanswered-after-ok", d + "; the line was never answered afterwards");
         else
                 fail("C15", "service-ok-with-work-pending", d);
 }
